@@ -72,7 +72,7 @@ def main(tier, seed, t0):
     sib = G.sibling_imports(qs, os.path.join(runner.X.REPO, 'src'))
     for q in qs:
         n_t += 1
-        fs = G.lint_template(q, sib.get((q['file'], q['fn']), ()) if q['parsed'] and q['parsed']['wrapper'] in ('arms', 'expr', 'exprs', 'type', 'stmts') else ())
+        fs = G.lint_template(q, sib.get((q['file'], q['fn']), ()) if q['parsed'] and q['parsed']['wrapper'] in ('arms', 'expr', 'exprs', 'type', 'stmts', 'where', 'generics') else ())
         for rule, msg in fs:
             ctx.violation(rule, None, '%s::%s' % (q['file'], q['fn']), '%s  [template in src/%s, fn %s, under %s]' % (msg, q['file'], q['fn'], ' / '.join(q['conds']) or 'no condition'),
                           key='C16/%s/%s::%s' % (rule, q['file'], q['fn']), construct='src/%s::%s' % (q['file'], q['fn']))
